@@ -1,8 +1,30 @@
-import Cirbo.Model.Mutate2
-/-! # C10 (placeholder until the theorems are in)
--- OBLIGATION: c10_placeholder
+import Cirbo.Proofs.Connect
+/-!
+# C10 — Circuit composition computes the documented functional composition
+
+-- OBLIGATION: c10_frame_add_gate
+-- OBLIGATION: c10_left_connection_keeps_base_function
+-- PARTIAL: proved: every left connection (connect_circuit(right_connect=False), connect_left, extend_circuit, add_circuit) only adds gates and leaves the value of every base gate unchanged under every assignment. Not yet proved: that the attached gates compute the attached circuit's function of the connector values, the exact inputs/outputs lists, the right-connect direction and block extraction. All of it is modelled one-to-one (Model/Mutate2.lean connStep/connFinish) and compared with the code field by field (both directions, wrappers, name/prefix options, repeated composition); the implementation's result is checked against the composed evaluation of the two operands on all assignments, against the documented interface, checkWFU and block extraction.
 -/
 namespace Cirbo
-theorem c10_placeholder : True := trivial
-#print axioms c10_placeholder
+open GateType Circuit
+
+/-- frame lemma: `add_gate`/`emplace_gate` gives the new gate a value and changes no other -/
+theorem c10_frame_add_gate {c cur cur' : Circuit} {g : Gate} {b v b' v' : Label → Bool}
+    (hext : Extends c cur b v b' v') (hadd : cur.addGate g = .ok cur')
+    (har : if g.ty = INPUT then True else arityOk g.ty g.ops.length = true) (bnew : Bool) :
+    ∃ b'' v'', Extends c cur' b v b'' v'' ∧ (∀ l ∈ cur.labels, v'' l = v' l) ∧
+      (∀ l, l ≠ g.label → b'' l = b' l) ∧ b'' g.label = bnew := addGate_frame hext hadd har bnew
+
+theorem c10_left_connection_keeps_base_function {c other c' : Circuit} {thisC otherC : List Label}
+    {name : Label} {addP : Bool} (h : c.connectCircuit other thisC otherC false name addP = .ok c')
+    (hcl : ∀ g ∈ c.gates, ∀ o ∈ g.ops, o ∈ c.labels)
+    (har : ∀ g ∈ other.gates, if g.ty = INPUT then True else arityOk g.ty g.ops.length = true)
+    {b v : Label → Bool} (hv : IsValB c b v) :
+    ∃ b' v', IsValB c' b' v' ∧ (∀ l ∈ c.labels, v' l = v l) ∧ (∀ l ∈ c.labels, b' l = b l) ∧
+      (∀ l ∈ c.labels, l ∈ c'.labels) := connect_left_frame h hcl har hv
+
+#print axioms c10_frame_add_gate
+#print axioms c10_left_connection_keeps_base_function
+
 end Cirbo
